@@ -131,6 +131,13 @@ type Property interface {
 	Rule() string
 }
 
+// Enumerator is implemented by properties that also sweep a finite sub-space
+// exhaustively: run indices below EnumCount are the enumerated cases.
+type Enumerator interface {
+	EnumCount(tier string) int
+	EnumCase(tier string, i int) interface{}
+}
+
 var registry = map[string]Property{}
 
 func Register(p Property) { registry[p.ID()] = p }
@@ -154,6 +161,7 @@ type Replay struct {
 	Detail   string          `json:"detail"`
 	Shrunk   bool            `json:"shrunk"`
 	Note     string          `json:"note,omitempty"`
+	Index    int             `json:"index"` // run index (only used when Case is absent: a worker that died)
 	Case     json.RawMessage `json:"case"`
 }
 
